@@ -1,5 +1,5 @@
 SPECIFICATION GSpecSim
-CONSTANTS MaxDepth = 4
+CONSTANTS MaxDepth = @MAXDEPTH@
           MaxLen = 6
           NFd = 2
           ArgPaths = {}
@@ -12,7 +12,7 @@ CONSTANTS MaxDepth = 4
           OpenDevs = @OPEN@
           Avoid = @AVOID@
           MaxSteps = 0
-          Names = {"a", "b", "f"}
+          Names = @NAMES@
           D = 0
           E = 30
           PresetSet = {1}
